@@ -412,3 +412,53 @@ def run(prog, ctx=None):
     if nfun < (ctx.get("min_functions", 3) if ctx else 3):
         raise Broken("COWGUARD: only %d handle-level functions found" % nfun)
     return res
+
+
+def run_sliceoff(prog, ctx=None):
+    """SLICEOFF: a slice denotes payload[_off, _off + _len): a copy of _len bytes out of the slice's buffer starts at _off
+    (the source expression mentions the slice's _off, directly or through a local loaded from it)"""
+    res = Result("SLICEOFF")
+    files = set(ctx.get("files", [])) if ctx else None
+    for f in funcs_of(prog, files):
+        # locals loaded from S->_len / S->_off
+        lenv, offv = {}, {}
+        for b, i, n in f.walk_all():
+            pairs = []
+            if n.get("k") == "bin" and n.get("op") == "=":
+                l = strip(n["a"], lvalue_to_rvalue=False)
+                if l.get("k") == "ref" and "id" in l["d"]:
+                    pairs.append((l["d"]["id"], n["b"]))
+            elif n.get("k") == "decl":
+                for v in n["vars"]:
+                    if v.get("init") is not None:
+                        pairs.append((v["id"], v["init"]))
+            for vid, rhs in pairs:
+                r = strip(rhs, all_casts=True)
+                if r.get("k") == "bin" and r.get("op") == "=":
+                    r = strip(r["b"], all_casts=True)
+                if r.get("k") == "mem" and r.get("rec", "").split("::")[-1] in ("mpt_slice", "slice"):
+                    if r["f"] == "_len":
+                        lenv.setdefault(vid, set()).add(norm(show(r["b"], f)))
+                    elif r["f"] == "_off":
+                        offv.setdefault(vid, set()).add(norm(show(r["b"], f)))
+        for b, i, e in f.elements():
+            if e.get("k") != "call" or callee_name(e) not in ("memcpy", "memmove") or len(e.get("args", [])) != 3:
+                continue
+            ln = strip(e["args"][2], all_casts=True)
+            S = None
+            if ln.get("k") == "mem" and ln.get("f") == "_len" and ln.get("rec", "").split("::")[-1] in ("mpt_slice", "slice"):
+                S = norm(show(ln["b"], f))
+            elif ln.get("k") == "ref" and ln["d"].get("id") in lenv and len(lenv[ln["d"]["id"]]) == 1:
+                S = list(lenv[ln["d"]["id"]])[0]
+            if S is None:
+                continue
+            src = e["args"][1]
+            has_off = False
+            for n in walk(src):
+                if n.get("k") == "mem" and n.get("f") == "_off" and norm(show(n["b"], f)) == S:
+                    has_off = True
+                if n.get("k") == "ref" and n["d"].get("id") in offv and S in offv[n["d"]["id"]]:
+                    has_off = True
+            res.ob("%s:%s" % (f.qn, norm(show(e, f))[:70]), has_off, f, e.get("l", 0),
+                   "" if has_off else "copies %s->_len bytes from the start of the buffer, not from %s->_off: consumed bytes reappear and the tail is lost" % (S, S))
+    return res
